@@ -331,6 +331,9 @@ func c08History(e *c08Env, rng *Rng, f *jqF, names []string, steps int) (changes
 			t := kemtypes.WatchEventAdded
 			if rng.Chance(10) {
 				t = kemtypes.WatchEventModified // an update for an object the informer does not know
+			} else if rng.Chance(12) {
+				t = kemtypes.WatchEventDeleted // a delete for an object the informer does not know
+				e.c.Note("delete:unknown-object")
 			}
 			e.deliver(t, name, o)
 			changes++
@@ -396,7 +399,7 @@ func c08Obj(ns, name string, replicas int64, a any, x int64) map[string]any {
 }
 
 func runC08(r *Run) {
-	r.Rule = "per case: one real resourceInformer on kube-client/fake with a jq filter drawn from the fragment (paths incl. missing keys and paths through scalars, literals, object/array construction, `//`; results object/array/scalar/null/error) or no filter, one of the 8 subsets of {Added,Modified,Deleted} (or the WithEventTypes(nil) default), keepFullObjectsInMemory on/off; 0-3 objects loaded by the real loadExistedObjects, then a history of 3-14 changes over 1-3 objects handed to the real OnAdd/OnUpdate/OnDelete: informer-start replay of the listed objects, resync of the identical state, changes only outside the filter's paths, changes inside them, A->B->A, deletes (also with a final state that differs from the cached one), re-adds, Modified for unknown objects. Every distinct object state is also run through the real applyFilter and compared with the model's jq evaluator. A case is non-trivial when it delivers >= 3 changes and contains at least one re-delivery or outside-only change; distinct = distinct op-line sequences. `cluster` cases start the informer on the fake client and change the objects in the cluster instead."
+	r.Rule = "per case: one real resourceInformer on kube-client/fake with a jq filter drawn from the fragment (paths incl. missing keys and paths through scalars, literals, object/array construction, `//`; results object/array/scalar/null/error) or no filter, one of the 8 subsets of {Added,Modified,Deleted} (or the WithEventTypes(nil) default), keepFullObjectsInMemory on/off; 0-3 objects loaded by the real loadExistedObjects, then a history of 3-14 changes over 1-3 objects handed to the real OnAdd/OnUpdate/OnDelete: informer-start replay of the listed objects, resync of the identical state, changes only outside the filter's paths, changes inside them, A->B->A, deletes (also with a final state that differs from the cached one), re-adds, Modified and Deleted for objects the informer does not know. Every distinct object state is also run through the real applyFilter and compared with the model's jq evaluator. A case is non-trivial when it delivers >= 3 changes and contains at least one re-delivery or outside-only change; distinct = distinct op-line sequences. `cluster` cases start the informer on the fake client and change the objects in the cluster instead."
 
 	// ---- corpus: the counterexamples of the repaired defect (filter results that are not objects)
 	corpus := []struct {
@@ -447,7 +450,7 @@ func runC08(r *Run) {
 	})
 
 	// ---- generated histories
-	n := r.N(1500, 20000)
+	n := r.N(3000, 20000)
 	r.Cases(100, n, 0, func(c *Case, rng *Rng) {
 		var f *jqF
 		if rng.Chance(85) {
@@ -521,6 +524,8 @@ func runC08(r *Run) {
 				k /= A
 				cnt++
 				switch {
+				case !live && a == 3: // a second delete: the informer does not know the object any more
+					e.deliver(kemtypes.WatchEventDeleted, "o1", o)
 				case !live || a == 4:
 					if live {
 						e.deliver(kemtypes.WatchEventAdded, "o1", o)
